@@ -466,6 +466,33 @@ func runC16(r *rt.Runner) {
 			checkIV(c, s)
 		}
 	})
+	// every Unicode character, alone and inside a name: none outside ASCII is a
+	// letter of the specification, whatever the Unicode tables say about its
+	// case mapping (U+212A KELVIN SIGN lower-cases to k, U+0130 to i, U+017F
+	// upper-cases to S)
+	for plane := 0; plane <= 16; plane++ {
+		plane := plane
+		r.Case(fmt.Sprintf("isvalid/every-rune/plane-%d", plane), func(c *rt.C) {
+			n := 0
+			for cp := plane << 16; cp < (plane+1)<<16; cp++ {
+				if cp < 0x80 || (cp >= 0xD800 && cp < 0xE000) {
+					continue
+				}
+				ch := string(rune(cp))
+				for _, s := range []string{ch, "a" + ch, ch + "1", "A" + ch + ".alt", "x_" + ch} {
+					n++
+					want := ref.IsValidGlyphName(s)
+					if got := names.IsValid(s); got != want {
+						c.Violation(fmt.Sprintf("IsValid:%q", s), fmt.Sprintf("IsValid(%q) = %t, specification says %t (U+%04X is not one of the 64 characters of the name alphabet)", s, got, want, cp), "")
+					}
+				}
+			}
+			c.Eval()
+			c.Runner().Count("IsValid calls", int64(n))
+			c.Runner().Count("IsValid calls with a non-ASCII character", int64(n))
+			c.Nontrivial([]byte(fmt.Sprintf("iv-plane|%d", plane)), func() string { return fmt.Sprintf("plane %d: %d names", plane, n) })
+		})
+	}
 	nIV := r.N(8000, 120000)
 	for k := 0; k < nIV; k++ {
 		r.Case("isvalid/random", func(c *rt.C) {
